@@ -144,6 +144,15 @@ func (a *A) ruleDominatedBy(fn *ssa.Function, construct string, early, late func
 				ok = true
 			}
 		}
+		if !ok && len(es) > 0 {
+			// path form: the decision may be carried in a flag (`result, emit := ...; if !emit { return }`):
+			// is there a feasible path to the late instruction that passes no early one?
+			isEarly := map[ssa.Instruction]bool{}
+			for _, e := range es {
+				isEarly[e] = true
+			}
+			ok = !explorePaths(fn, l, func(ssa.Value) Tri { return U }, func(in ssa.Instruction) bool { return isEarly[in] }, nil)
+		}
 		a.Check(ok, construct, l.Pos(), okMsg, badMsg)
 	}
 	return len(ls)
